@@ -3,6 +3,7 @@ package encoding
 import (
 	"bytes"
 	"encoding/binary"
+	"encoding/hex"
 	"fmt"
 	"hash"
 	"io"
@@ -67,15 +68,19 @@ func (compValFmtInvalid) FromMatching(m any) ([]byte, error) {
 }
 
 func (compValFmtText) ToString(val []byte) string {
-	vText := ""
+	const digits = "0123456789ABCDEF"
+	sb := strings.Builder{}
+	sb.Grow(len(val))
 	for _, b := range val {
 		if isLegalCompText(b) {
-			vText = vText + string(b)
+			sb.WriteByte(b)
 		} else {
-			vText = vText + fmt.Sprintf("%%%02X", b)
+			sb.WriteByte('%')
+			sb.WriteByte(digits[b>>4])
+			sb.WriteByte(digits[b&0x0f])
 		}
 	}
-	return vText
+	return sb.String()
 }
 
 func (compValFmtText) FromString(valStr string) ([]byte, error) {
@@ -165,11 +170,7 @@ func (compValFmtDec) FromMatching(m any) ([]byte, error) {
 }
 
 func (compValFmtHex) ToString(val []byte) string {
-	vText := ""
-	for _, b := range val {
-		vText = vText + fmt.Sprintf("%02x", b)
-	}
-	return vText
+	return hex.EncodeToString(val)
 }
 
 func (compValFmtHex) FromString(s string) ([]byte, error) {
